@@ -283,8 +283,6 @@ def run_value_symmetry(P, rep, rule="R-MIRROR.value"):
             rep.viol(rule, nm, P.where(fn), "lhs is asked %s but rhs %s: the function cannot be symmetric" % (sorted(asked[1]), sorted(asked[2])))
         else:
             rep.ok(rule, nm, P.where(fn), "both operands are queried with %s" % sorted(set(asked[1])))
-        if nm != "value_cmp":
-            continue
         # ordering must be dual: the array/object views obtained from the two operands are consumed alike
         side_of_view = {}
         for bi, t in P.calls(fn):
@@ -328,6 +326,35 @@ def run_value_symmetry(P, rep, rule="R-MIRROR.value"):
                     continue
                 cur = base
             return None
+        if nm == "value_eq":
+            # the two "scalar against a non-scalar" arms are mirror images: the constants that default an undecided to_bool()
+            # are the same for the scalar taken from the left and from the right operand
+            from mirutil import copy_root
+            dflt = {1: [], 2: []}
+            tb = {}
+            for bi, t in P.calls(fn):
+                f = t.get("f")
+                if f and f["id"].rsplit("::", 1)[1] == "to_bool" and t["args"]:
+                    ol = op_local(t["args"][0])
+                    sd = view_side(ol[0]) if ol else None
+                    if sd in (1, 2):
+                        tb[t["d"][0]] = sd
+            for bi, t in P.calls(fn):
+                f = t.get("f")
+                if f and f["id"].rsplit("::", 1)[1] == "unwrap_or" and len(t["args"]) > 1:
+                    ol = op_local(t["args"][0])
+                    r_ = copy_root(fn, ol[0]) if ol else None
+                    sd = tb.get(ol[0] if ol else None) or tb.get(r_)
+                    c = t["args"][1]
+                    if sd and c[0] == "k" and isinstance(c[1], dict) and "val" in c[1]:
+                        dflt[sd].append(c[1]["val"])
+            if sorted(map(str, dflt[1])) != sorted(map(str, dflt[2])):
+                rep.viol(rule, "value_eq mirrored defaults", P.where(fn),
+                         "an undecided to_bool() of the left operand's scalar is defaulted with %s, of the right operand's with %s: `a == b` and `b == a` disagree "
+                         "when one side is a non-boolean scalar and the other a collection" % (sorted(map(str, dflt[1])), sorted(map(str, dflt[2]))))
+            elif dflt[1]:
+                rep.ok(rule, "value_eq mirrored defaults", P.where(fn), "to_bool() defaults %s on both sides" % sorted(map(str, dflt[1])))
+            continue
         used = {1: [], 2: []}
         for body, org in so.all_bodies():
             for bi, t in P.calls(body):
@@ -361,6 +388,29 @@ def run_value_symmetry(P, rep, rule="R-MIRROR.value"):
                          "two containers are ordered by comparing their lengths before any element is looked at: [9] < [1, 2] would hold; "
                          "the value model orders arrays element by element (length is only the tie-break of a common prefix)")
             k_len += 1
+        # the key sorts of both operands use the same orientation: `|a, b| a.cmp(b)` — a comparator with its arguments swapped
+        # sorts one side descending, and two equal objects then compare Less both ways
+        from origins import backward_slice
+        k_s = 0
+        for body, org in so.all_bodies():
+            if body is fn or body.kind != "closure" or body.argc != 3:
+                continue
+            for bi, t in P.calls(body):
+                f = t.get("f")
+                if not f or f["id"].rsplit("::", 1)[1] not in ("cmp", "partial_cmp") or len(t["args"]) < 2:
+                    continue
+                a0, a1 = op_local(t["args"][0]), op_local(t["args"][1])
+                if not a0 or not a1:
+                    continue
+                l0, l1 = backward_slice(body, a0[0])[0], backward_slice(body, a1[0])[0]
+                if (3 in l0 and 2 not in l0) and (2 in l1 and 3 not in l1):
+                    rep.viol(rule, "value_cmp key-sort#%d reversed" % k_s, P.where(body, t["line"]),
+                             "a two-argument comparator closure of value_cmp compares its second argument with its first (`|a, b| b.cmp(a)`): that side is sorted in "
+                             "descending order, so entry-wise comparison pairs different keys")
+                elif (2 in l0 and 3 not in l0) and (3 in l1 and 2 not in l1):
+                    rep.ok(rule, "value_cmp key-sort#%d" % k_s, P.where(body, t["line"]), "comparator closure compares (first argument, second argument)")
+                k_s += 1
+        # mirrored defaults of value_eq are checked in run_eq_defaults
         closure_view_calls = []
         for body, org in so.all_bodies():
             if body is fn:
@@ -529,8 +579,14 @@ def run_cmptotal(P, rep, rule="R-CMPTOTAL"):
                 rep.viol(rule, site, where, "comparator of %s not found" % last)
                 continue
             verdicts = []
+            del BIASED_DEFAULTS[:]
             for cf in cmp_fns:
                 verdicts += comparator_partial_sites(P, cf, 3, set())
+            if BIASED_DEFAULTS:
+                g_, l_, v_ = BIASED_DEFAULTS[0]
+                rep.viol(rule, site + " biased-default", P.where(g_, l_),
+                         "an incomparable pair (partial_cmp == None) is mapped to %s instead of Equal: the comparator then says a<b and b<a for such a pair — "
+                         "a stable sort swaps neighbours, sorting twice gives a different result" % ("Less" if v_ in (-1, 255) else "Greater" if v_ == 1 else "a non-Equal ordering"))
             if _is_array_filter(fn):
                 conv_ = []
                 for cf in cmp_fns:
@@ -664,6 +720,9 @@ def split_top(s):
     return out
 
 
+BIASED_DEFAULTS = []
+
+
 def comparator_partial_sites(P, fn, depth, seen):
     """(fn, line, what): the comparator defaults an Option<Ordering> that stems from
     PartialOrd::partial_cmp on a type that is not Ord (so None is possible)."""
@@ -696,6 +755,14 @@ def _scan_cmp(P, fn, depth, seen, partial, defaults):
             ol = op_local(t["args"][0])
             if ol and P.local_ty(fn, ol[0]) == "core::option::Option<core::cmp::Ordering>":
                 defaults.append((fn, t["line"], last))
+                from mirutil import defs_of as _defs
+                for a in t["args"][1:]:
+                    if a[0] == "k" and isinstance(a[1], dict) and a[1].get("val") not in (None, 0):
+                        BIASED_DEFAULTS.append((fn, t["line"], a[1].get("val")))
+                    al = op_local(a)
+                    for d in (_defs(fn, al[0]) if al and not al[1] else []):
+                        if d[0] == "a" and d[3]["k"] == "agg" and d[3].get("id") == "core::cmp::Ordering" and d[3].get("vname") in ("Less", "Greater"):
+                            BIASED_DEFAULTS.append((fn, t["line"], -1 if d[3]["vname"] == "Less" else 1))
         for tg in P.callee_targets(t):
             g = P.fns.get(tg)
             if g is not None and g.crate in LIB_CRATES and (g.kind == "closure" or not g.impl):
